@@ -41,6 +41,8 @@ type verifOp struct {
 	Eval bool   `json:"eval"` // fault / replace: EVAL answered
 	Ping bool   `json:"ping"` // fault / replace: PING answered
 	Hard bool   `json:"hard"` // fault with eval=ping=false: close the listener instead of error replies
+	Cut  bool   `json:"cut"`  // take: the caller's context is cancelled when the take reaches the server
+	Slow bool   `json:"slow"` // conc (token): the script calls of all G callers are in flight at once on a slow server
 	Hang bool   `json:"hang"` // fault with eval=ping=false: accept every command and never answer
 }
 
@@ -69,8 +71,32 @@ type verifServer struct {
 	stuck   bool
 	hang    chan struct{} // non-nil: every command is parked on it and then dropped (never answered)
 	slow    chan struct{} // non-nil: EVAL/EVALSHA are parked on it and then dropped
+	gate    *verifGate    // non-nil: EVAL/EVALSHA wait for each other (slow server under concurrent callers), then run
+	cut     func()        // non-nil: called once when the next counting command (EVAL, INCR...) reaches the server
 	healMax time.Duration
 	pending bool // a request ran since the monitors were last given time (fallback of verifHeal)
+}
+
+// verifGate holds arriving script calls back until want of them are parked (or 300 ms have passed since
+// one arrived): a slow server with many callers in flight at once. The calls then run normally.
+type verifGate struct {
+	mu    sync.Mutex
+	want  int
+	count int
+	ch    chan struct{}
+}
+
+func (g *verifGate) arrive() {
+	g.mu.Lock()
+	g.count++
+	if g.count == g.want {
+		close(g.ch)
+	}
+	g.mu.Unlock()
+	select {
+	case <-g.ch:
+	case <-time.After(300 * time.Millisecond):
+	}
 }
 
 func (v *verifServer) apply() {
@@ -78,12 +104,19 @@ func (v *verifServer) apply() {
 		return
 	}
 	evalUp, pingUp := v.evalUp, v.pingUp
-	hang, slow := v.hang, v.slow
-	if evalUp && pingUp && hang == nil && slow == nil {
+	hang, slow, gate, cut := v.hang, v.slow, v.gate, v.cut
+	if evalUp && pingUp && hang == nil && slow == nil && gate == nil && cut == nil {
 		v.s.Server().SetPreHook(nil)
 		return
 	}
+	var cutOnce sync.Once
 	v.s.Server().SetPreHook(server.Hook(func(c *server.Peer, cmd string, args ...string) bool {
+		if cut != nil && (cmd == "EVAL" || cmd == "EVALSHA" || cmd == "INCR" || cmd == "INCRBY") {
+			cutOnce.Do(cut) // the caller gives up at the very moment its counting command has arrived; the command runs
+		}
+		if gate != nil && (cmd == "EVAL" || cmd == "EVALSHA") {
+			gate.arrive()
+		}
 		if hang != nil {
 			<-hang // the server has accepted the command and stays silent
 			return true
@@ -251,7 +284,20 @@ func verifPeriod(v *verifServer, c verifCase) any {
 			now := time.Now()
 			_, off := now.Zone()
 			u0 := now.Unix()
-			code, err := pl.Take(key)
+			var code int
+			var err error
+			if op.Cut {
+				// the caller's context is cancelled exactly when the take reaches the server
+				ctx, cancel := context.WithCancel(context.Background())
+				v.cut = cancel
+				v.apply()
+				code, err = pl.TakeCtx(ctx, key)
+				cancel()
+				v.cut = nil
+				v.apply()
+			} else {
+				code, err = pl.Take(key)
+			}
 			u1 := time.Now().Unix()
 			if op.Down {
 				v.set(true, true, false)
@@ -483,6 +529,10 @@ func verifToken(v *verifServer, c verifCase) any {
 			var granted int64
 			start := make(chan struct{})
 			now := time.UnixMilli(clock)
+			if op.Slow {
+				v.gate = &verifGate{want: op.G, ch: make(chan struct{})}
+				v.apply()
+			}
 			for g := 0; g < op.G; g++ {
 				wg.Add(1)
 				go func() {
@@ -495,6 +545,10 @@ func verifToken(v *verifServer, c verifCase) any {
 			}
 			close(start)
 			wg.Wait()
+			if op.Slow {
+				v.gate = nil
+				v.apply()
+			}
 			out = append(out, snap(map[string]any{"granted": granted}))
 		case "fault":
 			if op.Hang && !op.Eval && !op.Ping {
